@@ -68,6 +68,34 @@ fn bulk_case(mode: u8, n: u64, hint: u8, dup_every: u64, kind: u8) -> Result<(u6
             }
             Ok((d.len as u64, a.tree_bins as u64))
         }
+        4 => {
+            // Clone builds a fresh map under a guard of its own, too
+            let base = items.into_iter().map(|(k, o, v)| (TKey::new(k, o), TVal::new(v)));
+            let src = Map::with_hasher(HB::new(mode));
+            {
+                let mut r = &src;
+                r.extend(base);
+            }
+            let map = src.clone();
+            if hint == 1 {
+                drop(src);
+            }
+            let g = map.guard();
+            let api = Api { map: &map, facade: 0, guard: &g };
+            let mut got = api.iter();
+            got.sort_by_key(|e| e.k);
+            let want: Vec<KV> = model.iter().map(|(k, x)| KV { k: *k, origin: x.0, v: x.1 }).collect();
+            if got != want {
+                return Err(format!("contents of the clone differ: got {} entries, want {}", got.len(), want.len()));
+            }
+            let d = map.verif_dump(&g);
+            let hf = |k: &TKey| hash_of(mode, k.k);
+            let (a, _) = crate::inspect::audit(&d, Some(&hf), map.len(), map.is_empty());
+            if !a.ok() {
+                return Err(a.failures.join("; "));
+            }
+            Ok((d.len as u64, a.tree_bins as u64))
+        }
         #[cfg(feature = "bulk")]
         3 => {
             // deserialisation is a bulk constructor too: a JSON object with the same keys (and
@@ -108,12 +136,12 @@ pub fn run_bulk(ctx: &Ctx, out: &mut Outcome) {
     let modes = [UNIFORM, CONSTANT, SAMEBIN, MIXED, IDENTITY];
     let mut idx = 0u64;
     'outer: for &mode in &modes {
-        for kind in 0..4u8 {
+        for kind in 0..5u8 {
             if kind == 3 && !cfg!(feature = "bulk") {
                 continue;
             }
             for hint in 0..3u8 {
-                if kind == 3 && hint > 0 {
+                if (kind == 3 && hint > 0) || (kind == 4 && hint > 1) {
                     continue;
                 }
                 for dup in [0u64, 1, 3] {
@@ -134,7 +162,7 @@ pub fn run_bulk(ctx: &Ctx, out: &mut Outcome) {
                         let r = guarded(|| bulk_case(mode, nn, hint, dup, kind));
                         out.evaluations += 1;
                         out.add("bulk_cases", 1);
-                        let kind_s = ["collect", "extend", "serde_from_str", "set_from_iter"][if kind == 3 { 2 } else if kind == 2 { 3 } else { kind as usize }];
+                        let kind_s = ["collect", "extend", "serde_from_str", "set_from_iter", "clone"][if kind == 3 { 2 } else if kind == 2 { 3 } else { kind as usize }];
                         let hint_s = ["exact", "zero", "low"][hint as usize];
                         let case = format!("{kind_s}/{}/hint={hint_s}/dup_every={dup}/n={nn}", mode_name(mode));
                         let fail = match r {
